@@ -124,17 +124,20 @@ def scenarios(prop, tier, seed=0):
                    oracles=BASE + ('deadlock', 'fut_results')))
         L.append(S('c07_p1_detach', [T('A', ('future_desync', 0, {'fut': 'ready', 'as': 'f'}), ('detach', 'f'))], pool_max=1, R=3, B=16,
                    oracles=BASE + ('deadlock', 'quiescent_complete')))
-        L.append(S('c07_p1_poll_detach', [T('A', ('future_desync', 0, {'fut': ('gate', 0), 'as': 'f'}), ('poll', 'f'), ('detach', 'f')), T('W', ('open_gate', 0))], pool_max=1, R=3, B=18,
+        if not q: L.append(S('c07_p1_poll_detach', [T('A', ('future_desync', 0, {'fut': ('gate', 0), 'as': 'f'}), ('poll', 'f'), ('detach', 'f')), T('W', ('open_gate', 0))], pool_max=1, R=3, B=18,
                    oracles=BASE + ('deadlock', 'quiescent_complete')))
     elif prop == 'C13':
-        L.append(S('c13_p1_suspend_resume', [T('A', ('desync', 0), ('suspend', 0, {'as': 's'}), ('desync', 0), ('block_on', 's'), ('resume', 's', 'resume'))],
-                   pool_max=1, R=3, B=18, oracles=BASE + ('deadlock', 'suspend', 'quiescent_complete')))
+        L.append(S('c13_p1_suspend_resume', [T('A', ('suspend', 0, {'as': 's'}), ('desync', 0), ('block_on', 's'), ('resume', 's', 'resume'))],
+                   pool_max=1, R=2, B=24, oracles=BASE + ('deadlock', 'suspend', 'quiescent_complete')))
         L.append(S('c13_p1_suspend_drop', [T('A', ('suspend', 0, {'as': 's'}), ('desync', 0), ('block_on', 's'), ('resume', 's', 'drop'))],
-                   pool_max=1, R=3, B=18, oracles=BASE + ('deadlock', 'suspend', 'quiescent_complete')))
-        L.append(S('c13_p0_suspend_resume_sync', [T('A', ('suspend', 0, {'as': 's'}), ('block_on', 's'), ('resume', 's', 'resume'), ('sync', 0))], pool_max=0, R=2, B=26,
-                   oracles=BASE + ('deadlock', 'suspend', 'results')))
+                   pool_max=1, R=2, B=24, oracles=BASE + ('deadlock', 'suspend', 'quiescent_complete')))
+        if not q:
+            L.append(S('c13_p1_desync_suspend_resume', [T('A', ('desync', 0), ('suspend', 0, {'as': 's'}), ('desync', 0), ('block_on', 's'), ('resume', 's', 'resume'))],
+                       pool_max=1, R=3, B=18, oracles=BASE + ('deadlock', 'suspend', 'quiescent_complete')))
+            L.append(S('c13_p0_suspend_resume_sync', [T('A', ('suspend', 0, {'as': 's'}), ('block_on', 's'), ('resume', 's', 'resume'), ('sync', 0))], pool_max=0, R=2, B=26,
+                       oracles=BASE + ('deadlock', 'suspend', 'results')))
     elif prop == 'C08':
-        L.append(S('c08_p1_await', [T('A', ('future_sync', 0, {'fut': 'ready', 'as': 'f'}), ('block_on', 'f'), ('desync', 0))], pool_max=1, R=3, B=18,
+        L.append(S('c08_p1_await', [T('A', ('future_sync', 0, {'fut': 'ready', 'as': 'f'}), ('block_on', 'f'), ('desync', 0))], pool_max=1, R=(2 if q else 3), B=24,
                    oracles=BASE + ('deadlock', 'fut_results', 'quiescent_complete')))
         L.append(S('c08_p1_drop_unpolled', [T('A', ('future_sync', 0, {'fut': 'ready', 'as': 'f'}), ('drop_fut', 'f'), ('desync', 0))], pool_max=1, R=3, B=18,
                    oracles=BASE + ('deadlock', 'cancelled_clean', 'quiescent_complete')))
